@@ -4,7 +4,8 @@
 //                     priority_queue of int; vector/set of std::string (with the uppercase format); int[3],
 //                     std::array<int,3>, std::tuple<int,std::string,int>, std::bitset<5>, vector<bool>, DynamicBitset,
 //                     map / multimap / unordered_map / unordered_multimap <int,string> (key-value pairs)
-// options           : list separator, clear-before-assign, sort, unique (drop / error), multi-value, element check
+// options           : list separator, clear-before-assign, sort, unique (drop / error), multi-value, element check,
+//                     uppercase format for every value / for the value at position 1 only (string vectors),
 //                     range(0,5), initial content {}, {4}, {4,2}; options a destination does not support are skipped
 // value sequences   : ALL sequences of <= 3 (quick) / <= 4 (thorough) elements over {0,1,2,7} incl. duplicates and the
 //                     out-of-range 7; EVERY CUT of the sequence into uses (-v 1,2 -v 3 / -v 1 2 3 with multi-value / ...)
@@ -31,9 +32,9 @@ using namespace celma::prog_args;
 static uint64_t g_evals = 0, g_configs = 0, g_skipped_option = 0, g_expect_throw = 0, g_dups = 0;
 static uint64_t g_case = 0;
 
-struct Opt { char sep = ','; bool clear = false, sort = false; int unique = 0; bool multival = false, check = false; int init = 0; bool upper = false; };
+struct Opt { char sep = ','; bool clear = false, sort = false; int unique = 0; bool multival = false, check = false; int init = 0; int upper = 0; };   // upper: 1 = uppercase format for every value, 2 = uppercase format for the value at position 1 only (addFormatPos)
 static std::string opt_text(const Opt& o) {
-   return std::string("sep'") + o.sep + "'" + (o.clear ? " clear" : "") + (o.sort ? " sort" : "") + (o.unique == 1 ? " unique" : o.unique == 2 ? " unique(error)" : "") + (o.multival ? " multival" : "") + (o.check ? " range(0,5)" : "") + (o.upper ? " uppercase" : "") + " init" + std::to_string(o.init);
+   return std::string("sep'") + o.sep + "'" + (o.clear ? " clear" : "") + (o.sort ? " sort" : "") + (o.unique == 1 ? " unique" : o.unique == 2 ? " unique(error)" : "") + (o.multival ? " multival" : "") + (o.check ? " range(0,5)" : "") + (o.upper == 1 ? " uppercase" : o.upper == 2 ? " uppercase@pos1" : "") + " init" + std::to_string(o.init);
 }
 // a cut: uses[i] = list of elements of use i
 typedef std::vector<std::vector<std::string>> Cut;
@@ -77,7 +78,7 @@ template <class E> static void fold_cut(Fold<E>& f, const Opt& o, const Cut& c, 
       if (o.clear && !cleared) { f.content.clear(); cleared = true; }
       for (auto t : use) {
          if (o.check) { long long x; if (!hc::conv_int(t, x) || x < 0 || x >= 5) { f.fail = true; f.why = "element " + t + " fails range(0,5)"; return; } }
-         if (o.upper) for (auto& ch : t) ch = char(toupper((unsigned char)ch));
+         if (o.upper == 1 || (o.upper == 2 && f.content.size() == 1)) for (auto& ch : t) ch = char(toupper((unsigned char)ch));      // position = number of elements the destination holds when the value arrives
          E e; if (!conv<E>(t, e)) { f.fail = true; f.why = "element does not convert"; return; }
          if (o.unique && f.has(e)) { ++g_dups; if (o.unique == 2) { f.fail = true; f.why = "duplicate " + t + " must be refused"; return; } continue; }
          f.add(e);
@@ -100,7 +101,7 @@ template <class E> static void fill(std::priority_queue<E>& c, const std::vector
 template <class C, class E> static void run_kind(const char* name, Place place, bool sortable, bool hashed, const std::vector<std::string>& alphabet, const std::vector<E>& init1, const std::vector<E>& init2, int maxlen, bool strings) {
    const char seps[] = {',', ';', '.'};
    for (int si = 0; si < (vf::thorough() ? 3 : 2); ++si) for (int clear = 0; clear < 2; ++clear) for (int sort = 0; sort < 2; ++sort) for (int uniq = 0; uniq < 3; ++uniq)
-   for (int mv = 0; mv < 2; ++mv) for (int chk = 0; chk < (strings ? 1 : 2); ++chk) for (int init = 0; init < 3; ++init) for (int upper = 0; upper < (strings ? 2 : 1); ++upper) {
+   for (int mv = 0; mv < 2; ++mv) for (int chk = 0; chk < (strings ? 1 : 2); ++chk) for (int init = 0; init < 3; ++init) for (int upper = 0; upper < (strings ? 3 : 1); ++upper) {
       ++g_case;
       if (!vf::want_case()) continue;
       Opt o; o.sep = seps[si]; o.clear = clear; o.sort = sort; o.unique = uniq; o.multival = mv; o.check = chk; o.init = init; o.upper = upper;
@@ -111,7 +112,7 @@ template <class C, class E> static void run_kind(const char* name, Place place, 
          try {
             auto* t = h.addArgument("v", destination(dest, "dest"), "desc");
             if (o.sep != ',') t->setListSep(o.sep); if (o.clear) t->setClearBeforeAssign(); if (o.sort) t->setSortData(); if (o.unique) t->setUniqueData(o.unique == 2);
-            if (o.multival) t->setTakesMultiValue(); if (o.check) t->addCheck(range(0, 5)); if (o.upper) t->addFormat(uppercase());
+            if (o.multival) t->setTakesMultiValue(); if (o.check) t->addCheck(range(0, 5)); if (o.upper == 1) t->addFormat(uppercase()); if (o.upper == 2) t->addFormatPos(1, uppercase());
          } catch (const std::exception&) { return false; }
          return true;
       };
@@ -135,7 +136,7 @@ template <class C, class E> static void run_kind(const char* name, Place place, 
                vf::outcome(threw ? std::string(name) + " refuses" : std::string(name) + " " + show(got));
                if (vf::verbose()) printf("  %s %s init %s line %s -> %s %s %s (fold: %s %s)\n", name, opt_text(o).c_str(), show(initial).c_str(), hc::words_text(words).c_str(), threw ? "throws" : "returns", what.c_str(), show(got).c_str(), f.fail ? "must refuse:" : "", f.fail ? f.why.c_str() : show(f.content).c_str());
                std::string ctx = std::string(name) + " " + opt_text(o) + " initial " + show(initial) + " line " + hc::words_text(words);
-               std::string sig = std::string(name) + "|" + (o.sort ? "sort" : "") + (o.unique ? "+unique" : "") + (o.clear ? "+clear" : "") + (o.check ? "+check" : "") + (fv ? "+freevalues" : "") + (init ? "+initial" : "");
+               std::string sig = std::string(name) + "|" + (o.sort ? "sort" : "") + (o.unique ? "+unique" : "") + (o.clear ? "+clear" : "") + (o.check ? "+check" : "") + (fv ? "+freevalues" : "") + (init ? "+initial" : "") + (o.upper == 2 ? "+posformat" : "");
                if (f.fail) { ++g_expect_throw; if (!threw) vf::violation("accepted|" + sig, ctx + ": " + f.why + ", but evaluation returned with " + show(got), std::to_string(vf::current_case())); }
                else if (threw) vf::violation("rejected|" + sig, ctx + ": rejected (" + what + "), fold gives " + show(f.content), std::to_string(vf::current_case()));
                else if (got != f.content) vf::violation("content|" + sig, ctx + ": container holds " + show(got) + ", fold gives " + show(f.content), std::to_string(vf::current_case()));
